@@ -32,6 +32,15 @@ theorem history_refines (ops : List Op) :
     (runC memSize heapMinCap (HState.init memSize) ops).2 = (runA memSize (AState.init memSize) ops).2 :=
   (run_refines consts_ok.2.1 consts_ok.2.2 ops (simH_init memSize)).1
 
+/-- **No crash.** In every history no operation reaches `unreachable!()`, and a Rust-level panic (slice index,
+`assert!`, `expect`, arithmetic overflow) can only be answered by a rollback operation (the two refusals of
+`collect_rollback_data`). -/
+theorem history_no_crash (ops : List Op) (i : Nat) (o : Out)
+    (h : (runC memSize heapMinCap (HState.init memSize) ops).2[i]? = some o) :
+    o ≠ .err .Unreachable ∧ (o = .err .RustPanic → ∃ k, ops[i]? = some (.rollback k)) := by
+  rw [history_refines] at h
+  exact runA_out memSize ops _ i o h
+
 /-- every reachable instance represents a flat memory (and so satisfies the representation invariant), and so
 does every snapshot it retains -/
 theorem reachable_sim {s : HState} (h : Reachable s) :
@@ -132,6 +141,35 @@ theorem rollback_restores_partial {cur snap : Mem} {fc fs : Flat} (hc : Sim memS
       obtain ⟨_, _, m', hm', hsim⟩ := hr
       refine Or.inr ⟨d, m', rfl, hm', (eqAccessible_iff hsim hs).mpr ?_, hsim⟩
       exact ⟨rfl, rfl, fun _ _ => rfl, fun _ _ _ => rfl⟩
+
+/-- **Within one transaction the stack case is the ONLY refusal.** After any history without resets, rolling back
+to a retained snapshot `k` answers a Rust panic exactly when that snapshot differs from the current memory and its
+stack extent is above the current one (the heap-pointer refusal cannot occur: retained snapshots are ancestors,
+their heap pointers are never below the current one). -/
+theorem rollback_refusal_within_transaction (ops : List Op) (hnr : ∀ op ∈ ops, op ≠ Op.reset) (k : Nat) :
+    (stepC memSize heapMinCap (runC memSize heapMinCap (HState.init memSize) ops).1 (.rollback k)).2 = .err .RustPanic ↔
+    ∃ snap, (runA memSize (AState.init memSize) ops).1.snaps[k]? = some snap ∧
+      ¬ (runA memSize (AState.init memSize) ops).1.cur.sameAccessible memSize snap ∧
+      snap.sl > (runA memSize (AState.init memSize) ops).1.cur.sl := by
+  have hsim := (run_refines consts_ok.2.1 consts_ok.2.2 ops (simH_init memSize)).2
+  have hord := hpOrdered_run memSize ops _ (hpOrdered_init memSize) hnr
+  rw [(step_refines consts_ok.2.1 consts_ok.2.2 hsim (.rollback k)).1]
+  generalize (runA memSize (AState.init memSize) ops).1 = sa at hord ⊢
+  simp only [stepA]
+  cases hk : sa.snaps[k]? with
+  | none => simp
+  | some snap =>
+    have hmem : snap ∈ sa.snaps := List.mem_of_getElem? hk
+    have hge := hord.above snap hmem
+    dsimp only
+    by_cases hs : sa.cur.sameAccessible memSize snap
+    · simp [hs]
+    · by_cases hr : snap.hp < sa.cur.hp ∨ snap.sl > sa.cur.sl
+      · have : snap.sl > sa.cur.sl := by omega
+        simp [hs, this]
+      · have h1 : ¬ snap.sl > sa.cur.sl := by omega
+        have h2 : ¬ snap.hp < sa.cur.hp := by omega
+        simp [hs, h1, h2]
 
 /-- the statement as the property words it (no condition on the stack extents): in a history without resets,
 rolling back to any retained (hence earlier) snapshot is never refused -/
